@@ -49,6 +49,12 @@ def step (s : Unit) (toks : List String) : Unit × String :=
       | some v => if inU64 v then formatUint v else "bad-op"
       | none => "bad-op"
   | ["parse_big", x] => optInt (parseBigInt x)
+  | ["parse_int", b, x] => match b.toNat? with
+      | some bits => if bits = 16 ∨ bits = 32 ∨ bits = 64 then optInt (parseInt x bits) else "bad-op"
+      | none => "bad-op"
+  | ["parse_uint", b, x] => match b.toNat? with
+      | some bits => if bits = 16 ∨ bits = 32 ∨ bits = 64 then optNat (parseUint x bits) else "bad-op"
+      | none => "bad-op"
   | _ => "bad-op"
   (s, out)
 end Goloop.Driver.C24
